@@ -1451,3 +1451,28 @@ def rule_argument_roles(ctx, rep: Report, rid="S11"):
                             f"{mi.rel}:{c.lineno}", nontrivial=(got != want))
     if n < 15:
         raise AnalysisError(f"{rep.prop}/{rid}: only {n} typenames/instantiations hand-overs found (15 expected)")
+
+
+def rule_cpp_spelling_not_flattened(ctx, rep: Report, rid="W8"):
+    """Two spellings of a concrete type exist: `to_cpp()` - the C++ type, template arguments in angle brackets - and
+    `instantiated_name()` - the identifier obtained by gluing the names together, used for Python / MATLAB names.
+    A function that produces C++ text (`to_cpp`, `cpp_typename`, `qualified_name`) never builds it from
+    `instantiated_name()`: for a template argument that is itself a template instantiation the glued identifier
+    (`PinholeCameraCal3Bundler`) names no C++ type and the generated call does not compile."""
+    prog = ctx.prog
+    n = 0
+    for mi in sorted(prog.modules.values(), key=lambda m: m.rel):
+        if not mi.rel.startswith(("gtwrap/template_instantiator", "gtwrap/interface_parser")):
+            continue
+        for q, ci in sorted(mi.classes.items()):
+            for mname, fn in sorted(ci.methods.items()):
+                if mname not in ("to_cpp", "cpp_typename", "qualified_name"):
+                    continue
+                n += 1
+                bad = [c for c in ast.walk(fn) if isinstance(c, ast.Call) and isinstance(c.func, ast.Attribute) and c.func.attr == "instantiated_name"]
+                rep.add(rid, f"C++ spelling:{q}.{mname}:not built from the flattened identifier", not bad,
+                        f"`{unparse(bad[0])[:60] if bad else ''}` at line {bad[0].lineno if bad else 0}: the text this method returns is pasted into the generated C++ "
+                        f"(explicit template arguments of the call); for an argument such as PinholeCamera<Cal3Bundler> it reads "
+                        f"`PinholeCameraCal3Bundler`, which names no type", f"{mi.rel}:{bad[0].lineno if bad else fn.lineno}", nontrivial=bool(bad))
+    if n < 8:
+        raise AnalysisError(f"{rep.prop}/{rid}: only {n} C++-spelling methods found")
